@@ -290,6 +290,10 @@ def refusal_cases():
         out.append(dict(k="refuse", what="station", sp=["RS", 1, ["int", st_]]))
         out.append(dict(k="refuse", what="station", sp=["two", 1, ["int", st_]]))
         out.append(dict(k="refuse", what="station", sp=["two", 1, ["str", "%d" % st_]]))
+    # a mask length above 32 denotes nothing
+    for bad in (33, 34, 64, 255, 256):
+        for s_ in ("10.1.2.3/%d", "10.1.2.3/%d:47808", "5:10.1.2.3/%d", "0.0.0.0/%d", "255.255.255.255/%d:47809"):
+            out.append(dict(k="refuse", what="mask", sp=["str", s_ % bad]))
     for neg in (-1, -256):
         out.append(dict(k="refuse", what="station", sp=["int", neg]))
         out.append(dict(k="refuse", what="station", sp=["LS", ["int", neg]]))
@@ -300,7 +304,7 @@ def refusal_cases():
 
 
 def plan(tier, seed):
-    specs = [dict(name="stations", kind="stations"), dict(name="ip-grid", kind="ipgrid"),
+    specs = [dict(name="stations", kind="stations"), dict(name="ip-grid", kind="ipgrid"), dict(name="lookalikes", kind="lookalikes"),
              dict(name="refusals", kind="refusals"), dict(name="broadcasts", kind="broadcasts")]
     n = 1500 if tier == "quick" else 20000
     for i in range(3):
@@ -341,6 +345,25 @@ def run(spec, ctx):
                         for c in all_cases_for(ip_meaning(RS, NETS[(prefix + port) % 4], ip, prefix, port)):
                             ctx.check(c)
         ctx.mark_exhaustive("boundary IPv4 addresses x all 33 prefix lengths x port boundaries")
+    elif kind == "lookalikes":
+        # octet strings of every length 1..7 that carry something looking like a BACnet/IP port (0xBAC0..0xBACF) at every offset,
+        # and six-octet strings with ports around that window: the printer chooses a notation by looking at exactly these
+        seen = set()
+        for n in range(1, 8):
+            for off in range(0, n - 1):
+                for lo in list(range(0xBF, 0xD1)):
+                    for fill in (0x00, 0x01, 0x7F, 0xC0, 0xFF):
+                        o = bytearray([fill] * n)
+                        for i in range(n):
+                            o[i] = (fill + i) & 0xFF if fill in (0x01, 0x7F) else fill
+                        o[off] = 0xBA
+                        o[off + 1] = lo
+                        seen.add(bytes(o))
+        for o in sorted(seen):
+            for m in (dict(t=LS, hex=o.hex()), dict(t=RS, net=NETS[len(o) % 4], hex=o.hex())):
+                for c in all_cases_for(m):
+                    ctx.check(c)
+        ctx.mark_exhaustive("octet strings of length 2..7 with 0xBA 0xBF..0xD0 at every offset x 5 fillers, local and remote, in every notation")
     elif kind == "refusals":
         for c in refusal_cases():
             ctx.check(c)
